@@ -1100,6 +1100,44 @@ func (m *Monitors) atQuiescence(s *Sim) {
 			m.NonTrivial["hooked-write:"+strconv.Itoa(rs)] = true
 		}
 	}
+	// C04 / C01: a run that rests at a status with a step, Initiated or Running, has had its CURRENT version handed to the step
+	// function: its announcement is the newest of the run, was published (C05), is redelivered until acknowledged, and may be
+	// acknowledged only after handling. A run for which that never happened has lost its newest announcement (dropped instead of
+	// retried, skipped by a consumer that moved past it) and is stranded.
+	// (Not on histories in which a listed finding has already broken the version numbering: what the consumers did with
+	// the announcements of such a run is a consequence of that.)
+	for _, rr := range w.runs {
+		if len(rr.versions) == 0 || m.tainted {
+			continue
+		}
+		last := rr.versions[len(rr.versions)-1]
+		if rs := int(last.RunState); rs != 1 && rs != 2 {
+			continue
+		}
+		hasStep := false
+		for _, bc := range w.Cfg.Calls {
+			if bc.Kind == "step" && bc.From == last.Status {
+				hasStep = true
+			}
+		}
+		if !hasStep {
+			continue
+		}
+		acted := false
+		for _, inv := range w.Invocations {
+			if inv.Kind == "step" && inv.Run == rr.ord && inv.SeenVer == last.Meta.Version && inv.Status == last.Status {
+				acted = true
+			}
+		}
+		if !acted {
+			for _, prop := range []string{"C04", "C01"} {
+				m.violate(prop, "current-announcement-acted-on", "newest-announcement-never-handled"+m.afterFlag(),
+					fmt.Sprintf("run r%d rests at status %d (run state %d, version %d) which has a step, every process is idle, nothing is due and the outbox is empty - but the step function was never handed version %d: the announcement of the run's newest write was dropped",
+						rr.ord, last.Status, int(last.RunState), last.Meta.Version, last.Meta.Version))
+			}
+		}
+		m.NonTrivial["rests-at-step-status"] = true
+	}
 	// C15: "an accepted deletion request is eventually executed": events are never lost by the simulated streamer (cursors only move
 	// back, duplicates are added), the drain was fault-free and the delete function succeeded, so no run may still be RequestedDataDeleted
 	for _, rr := range w.runs {
